@@ -49,8 +49,8 @@ SHARD_TIMEOUT = {"quick": 900, "thorough": 5400}
 # The ANML reader costs 0.5 - 3 CPU-seconds per text of 20-30 lines (nested pyparsing infix_notation grammars): the quick tier can
 # afford ~32 texts; vk.gen.iofrag.gen_anml_case stratifies them by case index so that every class is still covered.
 BOUNDS = {
-    "quick": dict(n=32, shards=4, depth=2, max_states=8, max_inst=10, read_timeout=12, files=("basic.anml", "durative_goals.anml", "tils.anml")),
-    "thorough": dict(n=2400, shards=16, depth=3, max_states=40, max_inst=24, read_timeout=60, files=None),
+    "quick": dict(n=32, shards=4, depth=2, max_states=8, max_inst=10, read_timeout=30, files=("basic.anml", "durative_goals.anml", "tils.anml")),
+    "thorough": dict(n=1600, shards=16, depth=3, max_states=40, max_inst=24, read_timeout=60, files=None),
 }
 ANML_DIR = os.path.join(_env.REPO, "unified_planning", "test", "anml")
 
@@ -161,7 +161,7 @@ def check_problem(pb, rec, info, wbase, b, res, explicit_env=False):
             # whichever assertion trips first
             mech = f"reader-raises:{type(ex).__name__}:explicit-environment"
         elif sfx:  # one string per known root cause, whatever token the parser tripped over
-            mech = f"reader-raises:{type(ex).__name__}{sfx}"
+            mech = f"reader-raises:{type(ex).__name__}[{io_rt.anml_failure_tag(ex, tags)}]"
         else:
             mech = f"reader-raises:{io_rt.exc_class(ex)}"
         viol(mech, f"ANMLReader.parse_problem_string raised {ex!r} on the writer's output", anml=text, explicit_env=explicit_env)
